@@ -277,8 +277,12 @@ class Program:
     def func(self, qualname: str) -> FuncInfo:
         if qualname in self.functions:
             return self.functions[qualname]
-        # allow Class.method shorthand
+        # allow Class.method shorthand and bare module-level function names
         parts = qualname.split(".")
+        if len(parts) == 1:
+            cands = [f for q, f in self.functions.items() if f.cls is None and f.node.name == qualname]
+            if len(cands) == 1:
+                return cands[0]
         if len(parts) >= 2:
             try:
                 ci = self.cls(parts[0]) if len(parts) <= 3 else None
